@@ -672,6 +672,16 @@ def _(p):
     return None
 
 
+@replay("c18_shadow")
+def _(p):
+    import os
+    import subprocess
+
+    r = subprocess.run(["/venv/bin/python", "-m", "harness.c18_shadow"], cwd="/verif", capture_output=True, text=True, timeout=600, env={**os.environ})
+    lines = [l[len("PROBLEM "):] for l in r.stdout.splitlines() if l.startswith("PROBLEM ")]
+    return lines[0] if lines else None
+
+
 @replay("c18_context_arrays")
 def _(p):
     from . import c18_common as cc
